@@ -681,6 +681,7 @@ pub fn replay_bounded(unit: &str) -> Option<i32> {
         "b_generate_constructed" => run_grid(unit, contract_generate_constructed, limit),
         "b_c04_component_bounds" => run_grid(unit, contract_generate_component_bounds, limit),
         "b_generate_enumerated" => run_grid(unit, contract_generate_enumerated, limit),
+        "b_c04_contained_subtype" => run_grid(unit, contract_contained_subtype_in_set_expression, limit),
         "b_c04_own_named_number" => run_grid(unit, contract_own_named_number, limit),
         "b_c02_validator_passes" => run_grid(unit, contract_validator_marks_recursion_despite_warnings, limit),
         "b_c03_pipeline_tagging" => run_grid(unit, contract_pipeline_tagging_default_of_the_defining_module, limit),
@@ -2046,6 +2047,48 @@ pub fn contract_own_named_number<C: Ctx>(cx: &mut C) {
                 vob!(cx, "C04.own_named_number.bound_resolved_to_the_types_own_number", ok);
             }
             Err(_) => { vob!(cx, "C04.own_named_number.validates", false); }
+        }
+    }
+    #[cfg(kani)]
+    { let _ = cx; }
+}
+
+/// C04 — set expressions that involve a contained subtype (`INTEGER (A | 0..5)`, `(A EXCEPT 5)`, `(0..5 ^ A)` with
+/// `A ::= INTEGER (0..300)`, already inlined by the linker): whatever the folding makes of the type inclusion, the
+/// resulting range must not exclude a value that the expression permits (fold_constraint_set, ContainedSubtype arms).
+pub fn contract_contained_subtype_in_set_expression<C: Ctx>(cx: &mut C) {
+    #[cfg(not(kani))]
+    {
+        use crate::intermediate::constraints::*;
+        use crate::intermediate::encoding_rules::per_visible::PerVisibleRangeConstraints;
+        use crate::intermediate::types::*;
+        let inner = Constraint::Subtype(ElementSetSpecs { set: ElementOrSetOperation::Element(SubtypeElements::ValueRange { min: Some(ASN1Value::Integer(0)), max: Some(ASN1Value::Integer(300)), extensible: false }), extensible: false });
+        let contained = SubtypeElements::ContainedSubtype { subtype: ASN1Type::Integer(Integer { constraints: vec![inner], distinguished_values: None }), extensible: false };
+        let in_a = |v: i128| (0..=300).contains(&v);
+        let (other, text, in_x): (SubtypeElements, &str, fn(i128) -> bool) = match cx.choose(4) {
+            0 => (SubtypeElements::SingleValue { value: ASN1Value::Integer(5), extensible: false }, "5", |v| v == 5),
+            1 => (SubtypeElements::ValueRange { min: Some(ASN1Value::Integer(0)), max: Some(ASN1Value::Integer(5)), extensible: false }, "0..5", |v| (0..=5).contains(&v)),
+            2 => (SubtypeElements::ValueRange { min: Some(ASN1Value::Integer(400)), max: Some(ASN1Value::Integer(500)), extensible: false }, "400..500", |v| (400..=500).contains(&v)),
+            _ => (SubtypeElements::ValueRange { min: None, max: Some(ASN1Value::Integer(5)), extensible: false }, "MIN..5", |v| v <= 5),
+        };
+        let op = cx.choose(3);
+        let contained_first = cx.any_bool();
+        let ops = [SetOperator::Union, SetOperator::Intersection, SetOperator::Except];
+        let (base, operant) = if contained_first { (contained, other) } else { (other, contained) };
+        cx.describe(|| format!("A ::= INTEGER (0..300); constraint=({})", if contained_first { format!("A {} {text}", ["|", "^", "EXCEPT"][op]) } else { format!("{text} {} A", ["|", "^", "EXCEPT"][op]) }));
+        let member = move |v: i128| { let (l, r) = if contained_first { (in_a(v), in_x(v)) } else { (in_x(v), in_a(v)) }; match op { 0 => l || r, 1 => l && r, _ => l && !r } };
+        let c = Constraint::Subtype(ElementSetSpecs { set: ElementOrSetOperation::SetOperation(SetOperation { base, operator: ops[op].clone(), operant: Box::new(ElementOrSetOperation::Element(operant)) }), extensible: false });
+        let folded: Result<PerVisibleRangeConstraints, _> = (&c).try_into();
+        match folded {
+            Ok(r) => {
+                let (lo, hi): (Option<i128>, Option<i128>) = (r.min(), r.max());
+                let inside = |v: i128| lo.map_or(true, |l| l <= v) && hi.map_or(true, |h| v <= h);
+                let mut ok = true;
+                for v in [-1000i128, -1, 0, 1, 4, 5, 6, 299, 300, 301, 399, 400, 450, 500, 501] { if member(v) && !inside(v) { ok = false; } }
+                vob!(cx, "C04.fold.contained_subtype_never_narrows_the_permitted_set", ok);
+            }
+            // an expression the folding rejects is reported as a warning by the generator; not asserted here
+            Err(_) => {}
         }
     }
     #[cfg(kani)]
